@@ -47,11 +47,12 @@ ExpectedObs(pc, pn) ==
    stray |-> <<>>,
    numa  |-> LET N == cfg.nodes \cup HeldNodes(pn)
              IN NumaList([n \in N |-> [r \in Res |-> NumaFS(pn, n, r)]], N)]
-\* (R) (N4): ledger' is what the code reports; it must be the one derived from scratch from the live pods
-ObsOK(o) ==
+\* (R) (N4): ledger' is what the code reports; it must be the one derived from scratch from the live pods.
+\* One Expect per event (bin/check keeps one expectation per event): rule = what the result had to satisfy
+ObsMatches(o) == LedgerMatches(LedgerOf(o), podCpus', podNuma') /\ PodsMatch(o.pods, podCpus', podNuma')
+ObsOK(o, resultOK, rule) ==
   /\ ledger' = LedgerOf(o)
-  /\ Expect(LedgerMatches(LedgerOf(o), podCpus', podNuma') /\ PodsMatch(o.pods, podCpus', podNuma'),
-            ExpectedObs(podCpus', podNuma'))
+  /\ Expect(resultOK /\ ObsMatches(o), [rule |-> rule] @@ ExpectedObs(podCpus', podNuma'))
 
 (****************************** actions ***********************************)
 AllocExpect(a) ==
@@ -66,11 +67,10 @@ TAlloc ==
   /\ LET a     == ArgsOf(Ev)
          S     == ToSet(Ev.result.cpus)
          split == NumaFn(Ev.result.numa)
-     IN /\ Expect(AllocOK(podCpus, podNuma, a, Ev.result.ok, S, split) /\ (Ev.commit => CommitLegal(Ev.pod, a)), AllocExpect(a))
-        /\ IF Ev.result.ok /\ Ev.commit
+     IN /\ IF Ev.result.ok /\ Ev.commit
              THEN podCpus' = Put(podCpus, Ev.pod, S) /\ podNuma' = Put(podNuma, Ev.pod, split)
              ELSE UNCHANGED <<podCpus, podNuma>>
-        /\ ObsOK(Ev.obs)
+        /\ ObsOK(Ev.obs, AllocOK(podCpus, podNuma, a, Ev.result.ok, S, split) /\ (Ev.commit => CommitLegal(Ev.pod, a)), AllocExpect(a))
   /\ UNCHANGED cfg
 
 TUpdate ==
@@ -78,7 +78,7 @@ TUpdate ==
   /\ UpdateLegal(Ev.pod, ToSet(Ev.cpus))          \* the harness only delivers legal allocations (assumption)
   /\ podCpus' = Put(podCpus, Ev.pod, ToSet(Ev.cpus))
   /\ podNuma' = Put(podNuma, Ev.pod, NumaFn(Ev.numa))
-  /\ ObsOK(Ev.obs)
+  /\ ObsOK(Ev.obs, TRUE, "ledger = sum of the live pods")
   /\ UNCHANGED cfg
 
 TRelease ==
@@ -86,7 +86,7 @@ TRelease ==
   /\ IF Ev.pod \in Pods
        THEN podCpus' = Drop(podCpus, Ev.pod) /\ podNuma' = Drop(podNuma, Ev.pod)
        ELSE UNCHANGED <<podCpus, podNuma>>
-  /\ ObsOK(Ev.obs)
+  /\ ObsOK(Ev.obs, TRUE, "ledger = sum of the live pods")
   /\ UNCHANGED cfg
 
 TTake ==
